@@ -76,6 +76,10 @@ def run(ctx):
     # different constraints carrying one name (a label, not a key)
     cases.append(dict(root=wide, ctcs=[("rule", OP("IMPLIES", T("Alpha"), T("Gamma"))), ("rule", OP("EXCLUDES", T("Beta"), T("Eta"))),
                                        ("rule", OP("OR", T("Delta"), T("Gamma")))]))
+    # an integer domain whose intervals are not in ascending order (a writer that sorts them changes the model)
+    cases.append(dict(root=spec.F("Root", [spec.R(0, 1, [spec.F("Disk", attrs=[spec.A("size", default=12, null=0,
+                                                        domain=dict(ranges=[(10, 20), (0, 5), (100, 200)], elems=[]))])])]),
+                      ctcs=[]))
     # numbered constraints and features past 9, a group of 300 (AFM-compatible names)
     cases.extend(m for m in gen.big_models(cardinal=False) if m["root"]["name"] in ("Num", "Big"))
     # order-permuted twins: equal-comparing models whose text differs (children in another order)
